@@ -485,6 +485,13 @@ mod e2e {
                     "GET / HTTP/1.1\r\nOrigin: https://a.example\rSet-Cookie:x=1\r\n\r\n", "GET / HTTP/1.1\r\nRange: bytes=0-1\r\nX: \u{7f}\r\n\r\n"] {
             add(&format!("raw {:?}", raw), raw.to_string());
         }
+        // request targets that are not origin-form: authority / absolute form, odd ports, userinfo, empty components
+        for t in [":x/", "http://example.com/", "http://example.com:80/a.txt", "http://example.com:/a.txt", "http://example.com:x/", "//example.com/a.txt", "//:x/a", "http://user:pw@host/a.txt",
+                  "http://[::1]/a.txt", "http://[::1]:x/", "example.com:443", "*", "http://", "http:///", "://", "/a.txt:80", "/:x", "//", "///", "http://a:99999999999999999999/", "/a.txt?x=http://b:x/",
+                  "ftp://a/b", "a://b:c@d:e/f?g#h", "/@", "//@:/", "http://@/", "http://:@:/"] {
+            add(&format!("target {}", t), format!("GET {} HTTP/1.1\r\nHost: localhost\r\n\r\n", t));
+            add(&format!("target post {}", t), format!("POST {} HTTP/1.1\r\nHost: localhost\r\nContent-Length: 0\r\n\r\n", t));
+        }
         for n in [63usize, 127, 255, 256, 511, 1023, 4095] {
             for fill in ["a", "\u{e9}", "\u{20ac}"] {
                 let val: String = format!("{}{}{}", "a".repeat(n), fill, "b".repeat(20));
